@@ -155,3 +155,126 @@ End C08volavg.
 Print Assumptions vol_avg_adjoint_accumulates.
 Print Assumptions vol_avg_adjoint_twice.
 Print Assumptions volume_average_pair_is_transpose.
+
+(* 7. (round 6) HISTORIES on one Simulation.  Model/JtWeights.v: the survey's
+   current standard deviation, the weights cached by the first misfit
+   evaluation, the misfit cache; operations misfit / gradient / jvec / any
+   change of the noise model / clean('computed') / jtvec.  jtvec divides the
+   vector by the CACHED weights and _get_rfield multiplies by the same cached
+   weights.  [good_*]: standard deviations and weights real and non-zero on the
+   data that count (fin). *)
+From V Require Import Model.JtWeights Proofs.JtWeights Proofs.AdjointC Proofs.JtWeightsC.
+Section C08history.
+  Context {K : Type} {O : FOps K}.
+  Hypothesis Fth : field_theory F0 F1 Fadd Fmul Fsub Fopp Fdiv Finv (@eq K).
+  Hypothesis two_nz : (1 + 1)%F <> 0%F.
+  Variable conj : K -> K.
+  Hypothesis conj_add : forall x y, conj (x + y)%F = (conj x + conj y)%F.
+  Hypothesis conj_mul : forall x y, conj (x * y)%F = (conj x * conj y)%F.
+  Hypothesis conj_invol : forall x, conj (conj x) = x.
+  Context {IE IC ID IM : Type}.
+  Variables (E : list IE) (C : list IC) (Dt : list ID) (M : list IM).
+  Variable K0 : (IE -> K) -> IE -> K.
+  Variable Av : (IC -> K) -> IE -> K.
+  Variable AvT : (IE -> K) -> IC -> K.
+  Variable s : K.
+  Variable p : ID -> IE -> K.
+  Variable fin : ID -> bool.
+  Hypothesis K0_sym : forall u v, dotE E (K0 u) v = dotE E u (K0 v).
+  Hypothesis Av_T : forall a x, dotE E (Av a) x = dotC C a (AvT x).
+  Hypothesis Av_real : forall a, (forall k, conj (a k) = a k) -> forall i, conj (Av a i) = Av a i.
+  Hypothesis s_imag : conj s = (- s)%F.
+  Hypothesis s_nz : s <> 0%F.
+
+  (* 7a. after EVERY history of good operations from EVERY good state, jtvec(y)
+     does not fail and hands the solver the source  - P^T conj(y)  (on the data
+     with finite weights): no trace of the noise model, of the cached weights or
+     of the history. *)
+  Theorem jtvec_after_any_history_is_weight_free (ops : list (@wop K ID)) (st : @wstate K ID) y :
+    good_state conj fin st -> Forall (good_op conj fin) ops ->
+    exists f, snd (step conj Dt s p fin (final conj Dt s p fin ops st) (OpJtvec y)) = Rsource f
+              /\ forall i : IE, f i = jt_source_ideal conj Dt p fin y i.
+  Proof.
+    exact (jtvec_after_history Fth conj conj_add conj_mul conj_invol Dt s p fin s_imag s_nz ops st y).
+  Qed.
+
+  (* 7b. two arbitrary histories on two arbitrary simulations (e.g. re-used with a
+     changed noise model vs fresh) pose the same adjoint problem for the same y *)
+  Theorem jtvec_independent_of_history (ops1 ops2 : list (@wop K ID)) (st1 st2 : @wstate K ID) y
+          (f1 f2 : IE -> K) :
+    good_state conj fin st1 -> good_state conj fin st2 ->
+    Forall (good_op conj fin) ops1 -> Forall (good_op conj fin) ops2 ->
+    snd (step conj Dt s p fin (final conj Dt s p fin ops1 st1) (OpJtvec y)) = Rsource f1 ->
+    snd (step conj Dt s p fin (final conj Dt s p fin ops2 st2) (OpJtvec y)) = Rsource f2 ->
+    forall i, f1 i = f2 i.
+  Proof.
+    exact (jtvec_history_independent Fth conj conj_add conj_mul conj_invol Dt s p fin s_imag s_nz
+             ops1 ops2 st1 st2 y f1 f2).
+  Qed.
+
+  (* 7c. the adjoint identity (theorem 2) on every reachable state: b is the
+     back-propagation of whatever jtvec hands to the solver after the history *)
+  Theorem jt_adjoint_on_every_reachable_state
+          (V : (IM -> K) -> IC -> K) (VT : (IC -> K) -> IM -> K) (c : IM -> K)
+          (sig : IC -> K) (e u b : IE -> K) (v : IM -> K)
+          (ops : list (@wop K ID)) (st : @wstate K ID) (y : ID -> K) (f : IE -> K) :
+    (forall a x, dotC C (V a) x = dotM M a (VT x)) ->
+    (forall a, (forall m, conj (a m) = a m) -> forall k, conj (V a k) = V a k) ->
+    (forall m, conj (c m) = c m) ->
+    (forall m, conj (v m) = v m) ->
+    (forall i, In i E -> Aop K0 Av s sig u i = jsource Av s e (jvec_dsig V c v) i) ->
+    good_state conj fin st -> Forall (good_op conj fin) ops ->
+    snd (step conj Dt s p fin (final conj Dt s p fin ops st) (OpJtvec y)) = Rsource f ->
+    (forall i, In i E -> Aop K0 Av s sig b i = f i) ->
+    re conj (sum (filter fin Dt) (fun j => conj (y j) * P E p u j)%F)
+    = dotM M (jtvec_of conj AvT s VT c e b) v.
+  Proof.
+    intros V_T V_real c_real v_real Hu.
+    exact (jt_adjoint_reachable Fth two_nz conj conj_add conj_mul conj_invol E C Dt M K0 Av AvT s p
+             fin K0_sym Av_T Av_real s_imag s_nz V VT c sig e u b v V_T V_real c_real v_real Hu
+             ops st y f).
+  Qed.
+
+  (* 7d. on every reachable state jtvec of the residual weighted with the weights
+     the state holds poses the adjoint problem of the gradient *)
+  Theorem jtvec_of_weighted_residual_is_gradient_on_every_reachable_state
+          (ops : list (@wop K ID)) (st : @wstate K ID) (r w : ID -> K) :
+    good_state conj fin st -> Forall (good_op conj fin) ops ->
+    st_w (do_misfit (final conj Dt s p fin ops st)) = Some w ->
+    snd (step conj Dt s p fin (final conj Dt s p fin ops st) (OpJtvec (fun j => r j * w j)%F))
+    = Rsource (jt_source conj Dt s p fin w (fun j => r j * w j)%F)
+    /\ forall i : IE, jt_source conj Dt s p fin w (fun j => r j * w j)%F i
+                      = rsource conj Dt s p fin w r i.
+  Proof.
+    exact (jtvec_weighted_residual_reachable Fth conj conj_add conj_mul conj_invol Dt s p fin
+             ops st r w).
+  Qed.
+
+  (* 7e. jtvec leaves the weight book-keeping as a misfit evaluation leaves it *)
+  Theorem jtvec_leaves_the_state_of_a_misfit_evaluation (st : @wstate K ID) y :
+    fst (step conj Dt s p fin st (OpJtvec y)) = fst (step conj Dt s p fin st (@OpMisfit K ID)).
+  Proof. exact (jtvec_state_is_misfit_state conj Dt s p fin st y). Qed.
+End C08history.
+
+Print Assumptions jtvec_after_any_history_is_weight_free.
+Print Assumptions jtvec_independent_of_history.
+Print Assumptions jt_adjoint_on_every_reachable_state.
+Print Assumptions jtvec_of_weighted_residual_is_gradient_on_every_reachable_state.
+Print Assumptions jtvec_leaves_the_state_of_a_misfit_evaluation.
+
+(* Non-vacuity and sensitivity over the complex numbers: the history
+   [misfit; noise model std 1 -> 2] from a fresh simulation satisfies the
+   hypotheses, reaches a state whose cached weights (1) differ from the weights
+   of the current noise model (1/4), and on that state the variant that scales
+   with weights taken afresh from the survey (class of seed C08-6) does NOT give
+   the history-independent source (-4 instead of -1). *)
+From Coquelicot Require Complex.
+Example history_hypotheses_nonvacuous_and_sensitive :
+  good_state Complex.Cconj jw_fin (fresh jw_sd1)
+  /\ List.Forall (good_op Complex.Cconj jw_fin) jw_hist
+  /\ st_w (do_misfit jw_end) = Some (weights_of jw_sd1)
+  /\ weights_of jw_sd1 tt <> weights_of (st_sd jw_end) tt
+  /\ jt_source_afresh Complex.Cconj [tt] Complex.Ci jw_p jw_fin jw_end jw_y tt
+     <> jt_source_ideal Complex.Cconj [tt] jw_p jw_fin jw_y tt.
+Proof. exact jw_nonvacuous. Qed.
+Print Assumptions history_hypotheses_nonvacuous_and_sensitive.
